@@ -217,7 +217,7 @@ const GADGETS: [&str; 9] = [
 ];
 
 fn gadget(t: &mut Tape, b: &mut Builder) {
-    let k = t.weighted(&[22, 14, 12, 16, 14, 10, 6, 6, 6]);
+    let k = t.weighted(&[22, 20, 12, 14, 14, 12, 6, 6, 6]);
     let w = *t.pick(&[32usize, 8, 16, 64]);
     match k {
         0 => {
@@ -339,7 +339,7 @@ fn gadget(t: &mut Tape, b: &mut Builder) {
             let (written, read) = if k == 6 {
                 (Some(vec![esc(&x.0, w)]), if t.chance(1, 2) { None } else { Some(vec![esc(&y.0, w)]) })
             } else {
-                match t.below(5) {
+                match t.weighted(&[30, 20, 20, 15, 15]) {
                     0 => (None, None),
                     1 => (Some(vec![esc(&x.0, w)]), Some(vec![esc(&y.0, w)])),
                     2 => (Some(vec![esc(&x.0, w)]), None),
@@ -1562,6 +1562,10 @@ fn main() -> std::process::ExitCode {
         ("intrinsic-partially-declared", 0.10),
         ("intrinsic-undeclared", 0.05),
         ("load-reaches-branch", 0.03),
+        ("only-seen-by-branch", 0.03),
+        ("only-seen-by-intrinsic-overwriting-it", 0.05),
+        ("ref-dead-definition", 0.40),
+        ("unreachable-block", 0.02),
         ("state-with-missing-scalar", 0.50),
         ("judged-run-with-store", 0.30),
         ("judged-run-with-branch", 0.10),
